@@ -5,8 +5,8 @@ use educe::Educe;
 use core::cmp::Ordering;
 #[derive(Educe)]
 #[educe(Hash)]
-pub struct T(#[educe(Hash(ignore = true))] A<0>, A<0>, A<0>);
-pub fn values() -> Vec<T> { vec![T(A(0), A(0), A(0)), T(A(0), A(0), A(1)), T(A(0), A(0), A(7)), T(A(0), A(1), A(0)), T(A(0), A(1), A(1)), T(A(0), A(1), A(7)), T(A(0), A(7), A(0)), T(A(0), A(7), A(1)), T(A(0), A(7), A(7)), T(A(1), A(0), A(0)), T(A(1), A(0), A(1)), T(A(1), A(0), A(7)), T(A(1), A(1), A(0)), T(A(1), A(1), A(1)), T(A(1), A(1), A(7)), T(A(1), A(7), A(0)), T(A(1), A(7), A(1)), T(A(1), A(7), A(7)), T(A(7), A(0), A(0)), T(A(7), A(0), A(1)), T(A(7), A(0), A(7)), T(A(7), A(1), A(0)), T(A(7), A(1), A(1)), T(A(7), A(1), A(7)), T(A(7), A(7), A(0)), T(A(7), A(7), A(1)), T(A(7), A(7), A(7))] }
-pub fn show(x: &T) -> String { #[allow(unused_variables)] match x { T(p0, p1, p2) => format!("T({},{},{})", sv(p0), sv(p1), sv(p2)) } }
-pub fn o_hash(x: &T) -> Vec<String> { let mut e = Rec::default(); match x { T(p0, p1, p2) => { ::core::hash::Hash::hash(p1, &mut e); ::core::hash::Hash::hash(p2, &mut e); } } e.0 }
+pub enum T { V1 { #[educe(Hash(method = "m_hash"))] x: A<0>, builder: A<1> }, Some {  } }
+pub fn values() -> Vec<T> { vec![T::V1 { x: A(0), builder: A(0) }, T::V1 { x: A(0), builder: A(1) }, T::V1 { x: A(0), builder: A(7) }, T::V1 { x: A(1), builder: A(0) }, T::V1 { x: A(1), builder: A(1) }, T::V1 { x: A(1), builder: A(7) }, T::V1 { x: A(7), builder: A(0) }, T::V1 { x: A(7), builder: A(1) }, T::V1 { x: A(7), builder: A(7) }, T::Some {  }] }
+pub fn show(x: &T) -> String { #[allow(unused_variables)] match x { T::V1 { x: p0, builder: p1 } => format!("V1({},{})", sv(p0), sv(p1)), T::Some {  } => format!("Some()") } }
+pub fn o_hash(x: &T) -> Vec<String> { let mut e = Rec::default(); match x { T::V1 { x: p0, builder: p1 } => { ::core::hash::Hash::hash(&0usize, &mut e); m_hash(p0, &mut e); ::core::hash::Hash::hash(p1, &mut e); }, T::Some {  } => { ::core::hash::Hash::hash(&1usize, &mut e); } } e.0 }
 pub fn run(out: &mut Out) { let vs = values(); for a in &vs { let mut g = Rec::default(); ::core::hash::Hash::hash(a, &mut g); let e = o_hash(a); out.check(g.0 == e, "hash_7", "hash", || format!("hash({}) fed {:?} expected {:?}", show(a), g.0, e)); } }
